@@ -252,6 +252,14 @@ def run_ghist(env, c):
             if newer and dirty:
                 script += "ec @@A%d@@\ne g\nec @@B%d@@\nrx a cp f snap%d\n" % (i, i, i)
                 expect.append((i, "leave", disk))
+            elif c.get("aw") and dirty:
+                # autowrite of a file nobody else touched: it is written - also the second time, which needs the first autowrite to
+                # have recorded its own write (time and saved state) - and the buffer is left
+                script += "ec @@A%d@@\ne g\nec @@B%d@@\nrx a cp f snap%d\ne f\n" % (i, i, i)
+                disk = b"".join(l + b"\n" for l in text)
+                dirty = False
+                recorded_now = True
+                expect.append((i, "autowrite", disk))
             continue
         if st_ == "efail":
             # a reload (:e!) whose read fails (shim: EIO while the flag file exists) keeps the buffer - and must keep the recorded time of
@@ -295,6 +303,11 @@ def run_ghist(env, c):
         m = re.search(r"@@A%d@@(.*?)@@B%d@@" % (i, i), out, re.S)
         seg = m.group(1) if m else ""
         got = runner.read_file(d, "snap%d" % i)
+        if refused == "autowrite":
+            if got != want:
+                return Outcome(False, nt, cl, detail={"why": "step %d: leaving the modified buffer with autowrite set did not write it to its (untouched) file" % i,
+                                                      "steps": c["steps"], "file": got, "want": want})
+            continue
         if refused == "leave":
             if got != want:
                 return Outcome(False, nt, cl, detail={"why": "step %d: leaving the modified buffer (:e g%s) replaced the file although it was modified from outside" %
